@@ -22,6 +22,7 @@ import BroodModel.Lemmas.RoundTrip
 import BroodModel.Props.C04
 import BroodModel.Props.C15
 import BroodModel.Lemmas.AllocAbs
+import BroodModel.Lemmas.Lockstep
 
 namespace Brood
 open Serde
@@ -127,6 +128,29 @@ theorem C06_lockstep {w : World} (hi : Inv w) (hres : ResOk w) {k : Kinds} (hz :
   intro a b ia ib ra rb
   exact lockstep_run opsa opsb hops hi h2 (eqWorld_abs hi h2 h3) ra rb
 
+/-- **"… and from then on behaves identically to the original under any further operations (same
+identifiers issued, same query results up to iteration order)."**  A world and its round-tripped
+copy that receive the same admissible operations — any history; `clear` in whatever order each
+world's table is visited — are issued the same identifiers AND keep holding the same map from
+identifiers to component values (values equal up to the component types' `PartialEq`); every query
+result is a function of that map (`C03_query_exact`). -/
+theorem C06_lockstep_full {w : World} (hi : Inv w) (hres : ResOk w) {k : Kinds} (hz : ZOk k w)
+    (hr : Bool) (e next : Nat) (opsa opsb : List Op) (hops : opsa.map Op.forget = opsb.map Op.forget)
+    (hwt : ∀ op ∈ opsa, op.wt w.n) :
+    ∃ w', deserialize k hr w.n w.res.length e next (serialize hr w) = .ok w' ∧
+      ∀ {a b : World} {ia ib : List Ident}, runIssued w opsa = .ok (a, ia) → runIssued w' opsb = .ok (b, ib) →
+        ia = ib ∧ a.alloc.abs = b.alloc.abs ∧ ∀ id, entEqv (a.entity id) (b.entity id) = true := by
+  obtain ⟨w', h1, h2, h3, _, _, _, h7⟩ := C06_roundtrip hi hres hz hr e next
+  obtain ⟨al, _, hde⟩ := roundtrip_ok hi hres k hr e next
+  have hn : w.n = w'.n := by
+    rw [hde] at h1
+    simp only [Except.ok.injEq] at h1
+    rw [← h1]; rfl
+  refine ⟨w', h1, ?_⟩
+  intro a b ia ib ra rb
+  obtain ⟨r1, t⟩ := twin_run opsa opsb hops hi h2 ⟨hn, eqWorld_abs hi h2 h3, h7⟩ hwt ra rb
+  exact ⟨r1, t.abs, t.map⟩
+
 /-- The same for any two worlds that compare equal (a world and its clone, for instance). -/
 theorem C06_equal_worlds_lockstep {x y : World} (hx : Inv x) (hy : Inv y)
     (heq : World.eqWorld x y = .ok true) (opsa opsb : List Op) (hops : opsa.map Op.forget = opsb.map Op.forget)
@@ -154,6 +178,116 @@ theorem step_res {w w' : World} {op : Op} (e : step w op = .ok w') : w'.res = w.
   | write id c v => obtain ⟨_, h⟩ := fstOut_ok e; exact C15_write_frame h
   | reserve shape => exact C15_reserve_frame e
   | shrink => simp [step] at e; subst e; rfl
+
+/-- A history touches no resource. -/
+theorem runIssued_res : ∀ (ops : List Op) {w w' : World} {ids : List Ident},
+    runIssued w ops = .ok (w', ids) → w'.res = w.res := by
+  intro ops
+  induction ops with
+  | nil => intro w w' ids h; simp [runIssued] at h; rw [← h.1]
+  | cons op ops ih =>
+    intro w w' ids h
+    simp only [runIssued] at h
+    cases hs : step w op with
+    | ub x => simp [hs] at h
+    | ok w1 =>
+      simp only [hs] at h
+      cases hr : runIssued w1 ops with
+      | ub x => simp [hr] at h
+      | ok p =>
+        obtain ⟨w2, i2⟩ := p
+        simp only [hr, Out.ok.injEq, Prod.mk.injEq] at h
+        obtain ⟨rfl, _⟩ := h
+        rw [ih hr, step_res hs]
+
+theorem runIssued_inv : ∀ (ops : List Op) {w w' : World} {ids : List Ident}, Inv w →
+    runIssued w ops = .ok (w', ids) → Inv w' := by
+  intro ops
+  induction ops with
+  | nil => intro w w' ids hi h; simp [runIssued] at h; rw [← h.1]; exact hi
+  | cons op ops ih =>
+    intro w w' ids hi h
+    simp only [runIssued] at h
+    cases hs : step w op with
+    | ub x => simp [hs] at h
+    | ok w1 =>
+      simp only [hs] at h
+      cases hr : runIssued w1 ops with
+      | ub x => simp [hr] at h
+      | ok p =>
+        obtain ⟨w2, i2⟩ := p
+        simp only [hr, Out.ok.injEq, Prod.mk.injEq] at h
+        obtain ⟨rfl, _⟩ := h
+        exact ih (step_inv hi hs) hr
+
+/-- The lock-step statement with `len()` and the resources included. -/
+theorem C06_lockstep_len_res {w : World} (hi : Inv w) (hres : ResOk w) {k : Kinds} (hz : ZOk k w)
+    (hr : Bool) (e next : Nat) (opsa opsb : List Op) (hops : opsa.map Op.forget = opsb.map Op.forget)
+    (hwt : ∀ op ∈ opsa, op.wt w.n) :
+    ∃ w', deserialize k hr w.n w.res.length e next (serialize hr w) = .ok w' ∧
+      ∀ {a b : World} {ia ib : List Ident}, runIssued w opsa = .ok (a, ia) → runIssued w' opsb = .ok (b, ib) →
+        ia = ib ∧ a.len = b.len ∧ rowEqv a.res b.res = true ∧
+          ∀ id, entEqv (a.entity id) (b.entity id) = true := by
+  obtain ⟨w', h1, h2, h3, _, _, h6, h7⟩ := C06_roundtrip hi hres hz hr e next
+  obtain ⟨al, _, hde⟩ := roundtrip_ok hi hres k hr e next
+  have hn : w.n = w'.n := by
+    rw [hde] at h1
+    simp only [Except.ok.injEq] at h1
+    rw [← h1]; rfl
+  refine ⟨w', h1, ?_⟩
+  intro a b ia ib ra rb
+  obtain ⟨r1, t⟩ := twin_run opsa opsb hops hi h2 ⟨hn, eqWorld_abs hi h2 h3, h7⟩ hwt ra rb
+  refine ⟨r1, twin_len (runIssued_inv opsa hi ra) (runIssued_inv opsb h2 rb) t, ?_, t.map⟩
+  rw [runIssued_res opsa ra, runIssued_res opsb rb]
+  exact h6
+
+/-- … "same query results up to iteration order": after the same operations, every query returns,
+for the original and for the round-tripped copy, the views of the same entities with equivalent
+values (each row of one result has its counterpart in the other; by symmetry of the lock-step
+relation also the other way round). -/
+theorem C06_lockstep_queries {w : World} (hi : Inv w) (hres : ResOk w) {k : Kinds} (hz : ZOk k w)
+    (hr : Bool) (e next : Nat) (opsa opsb : List Op) (hops : opsa.map Op.forget = opsb.map Op.forget)
+    (hwt : ∀ op ∈ opsa, op.wt w.n) :
+    ∃ w', deserialize k hr w.n w.res.length e next (serialize hr w) = .ok w' ∧
+      ∀ {a b : World} {ia ib : List Ident}, runIssued w opsa = .ok (a, ia) → runIssued w' opsb = .ok (b, ib) →
+        ∀ (vs : List View) (f : Filter), ∃ ra rb, a.query vs f = .ok ra ∧ b.query vs f = .ok rb ∧
+          ∀ row ∈ ra, ∃ id vals vals', a.entity id = some vals ∧ b.entity id = some vals' ∧
+            rowEqv vals vals' = true ∧ row = vs.map (Spec.cellOf ⟨id, vals⟩) ∧
+            vs.map (Spec.cellOf ⟨id, vals'⟩) ∈ rb := by
+  obtain ⟨w', h1, h2, h3, _, _, _, h7⟩ := C06_roundtrip hi hres hz hr e next
+  obtain ⟨al, _, hde⟩ := roundtrip_ok hi hres k hr e next
+  have hn : w.n = w'.n := by
+    rw [hde] at h1
+    simp only [Except.ok.injEq] at h1
+    rw [← h1]; rfl
+  refine ⟨w', h1, ?_⟩
+  intro a b ia ib ra rb vs f
+  obtain ⟨_, t⟩ := twin_run opsa opsb hops hi h2 ⟨hn, eqWorld_abs hi h2 h3, h7⟩ hwt ra rb
+  exact twin_query (runIssued_inv opsa hi ra) (runIssued_inv opsb h2 rb) t vs f
+
+/-- **Values produced by deserialization are owned independently** (C04): the round-tripped world
+owns exactly one re-tagged copy per value of the original, in the same order — nothing shared,
+nothing missing, nothing extra. -/
+theorem C06_roundtrip_owns_copies {w : World} (hi : Inv w) (hres : ResOk w) (k : Kinds) (hr : Bool)
+    (e next : Nat) :
+    ∃ w', deserialize k hr w.n w.res.length e next (serialize hr w) = .ok w' ∧
+      w'.values = w.values.map (retag k e) := by
+  obtain ⟨al, _, hde⟩ := roundtrip_ok hi hres k hr e next
+  refine ⟨_, hde, ?_⟩
+  unfold World.values assemble
+  simp only [List.map_append]
+  congr 1
+  have key : ∀ (l : List Arch) (h : Nat),
+      (retagArchs k e h l).flatMap Arch.values = (l.flatMap Arch.values).map (retag k e) := by
+    intro l
+    induction l with
+    | nil => intro h; rfl
+    | cons a l ih =>
+      intro h
+      simp only [retagArchs, List.flatMap_cons, List.map_append, ih]
+      congr 1
+      simp only [Arch.values, retagArch, List.map_flatten]
+  exact key _ _
 
 /-- A value that may be stored: zero-sized kinds carry no identity. -/
 def ZVal (k : Kinds) (v : Val) : Prop := k.kindOf v.ty = 'z' → v.base = 0
@@ -247,3 +381,7 @@ end Brood
 #print axioms Brood.C06_clear_order_independent
 #print axioms Brood.C06_lockstep
 #print axioms Brood.C06_equal_worlds_lockstep
+#print axioms Brood.C06_lockstep_full
+#print axioms Brood.C06_lockstep_len_res
+#print axioms Brood.C06_lockstep_queries
+#print axioms Brood.C06_roundtrip_owns_copies
